@@ -199,3 +199,151 @@ class OrderTaint:
                     and not isinstance(s.value, (ast.Tuple, ast.List)) and self.tainted(s.value, n):
                 out.append((s, "tuple-unpacking of a sequence in directory-listing order"))
         return out
+
+
+# ---------------------------------------------------------------------------------------------------------------------
+# index-space confusion after boolean-mask filtering
+MASK_CALLS = {"np.all", "np.any", "np.isin", "np.isclose", "np.logical_and", "np.logical_or", "np.logical_not", "np.in1d", "is_round"}
+POS_CALLS = {"np.argsort", "np.argmin", "np.argmax", "np.flatnonzero", "np.lexsort"}
+SAME_POS_CALLS = {"np.sort", "sorted", "list", "tuple", "np.array", "np.asarray", "np.split", "np.array_split", "np.concatenate"}
+
+
+def _is_method(c: ast.Call) -> bool:
+    return isinstance(c.func, ast.Attribute) and not (isinstance(c.func.value, ast.Name) and c.func.value.id in ("np", "numpy"))
+
+
+def masked_index_escapes(func: ast.AST, du: DefUse) -> List[Tuple[ast.AST, str, str]]:
+    """Positions computed *within a mask-filtered array* (argsort / unique(return_index) / argmin / where of `A[mask]`) that leave the
+    function or index an unfiltered array without being mapped back through `np.flatnonzero(mask)[…]` / `np.where(mask)[0][…]`.
+    → [(node, mask name, description)].  Such positions equal positions in A only when the mask keeps everything."""
+    cfg = du.cfg
+
+    def is_mask_expr(v: ast.AST, at: int, seen) -> bool:
+        if isinstance(v, ast.Compare):
+            return True
+        if isinstance(v, ast.Call) and call_name(v) in MASK_CALLS:
+            return True
+        if isinstance(v, ast.UnaryOp) and isinstance(v.op, ast.Invert):
+            return is_mask_expr(v.operand, at, seen)
+        if isinstance(v, ast.BinOp) and isinstance(v.op, (ast.BitAnd, ast.BitOr)):
+            return is_mask_expr(v.left, at, seen) and is_mask_expr(v.right, at, seen)
+        if isinstance(v, ast.Name):
+            ds = du.reaching(v.id, at)
+            return bool(ds) and all(d.value is not None and (v.id, d.node) not in seen and is_mask_expr(d.value, d.node, seen | {(v.id, d.node)}) for d in ds)
+        return False
+
+    def filtered(e: ast.AST, at: int, seen) -> Optional[str]:
+        """mask name if e is (element-wise derived from) an array filtered along its first axis by a boolean mask"""
+        if isinstance(e, ast.Subscript):
+            sl = e.slice.elts[0] if isinstance(e.slice, ast.Tuple) and e.slice.elts else e.slice
+            if isinstance(sl, ast.Name) and is_mask_expr(sl, at, set()):
+                return sl.id
+            if isinstance(sl, ast.Slice) or (isinstance(e.slice, ast.Tuple)):
+                return filtered(e.value, at, seen)
+            return None
+        if isinstance(e, ast.Name):
+            ms = set()
+            for d in du.reaching(e.id, at):
+                if d.value is None or (e.id, d.node) in seen or d.kind not in ("assign", "aug"):
+                    return None
+                ms.add(filtered(d.value, d.node, seen | {(e.id, d.node)}))
+            return ms.pop() if len(ms) == 1 else None
+        if isinstance(e, ast.BinOp):
+            return filtered(e.left, at, seen) or filtered(e.right, at, seen)
+        if isinstance(e, ast.UnaryOp):
+            return filtered(e.operand, at, seen)
+        if isinstance(e, ast.Attribute) and e.attr == "T":
+            return filtered(e.value, at, seen)
+        if isinstance(e, ast.Call):
+            cn = call_name(e)
+            if cn in POS_CALLS or cn in ("len", "np.count_nonzero", "np.sum", "np.prod", "np.unique", "np.bincount", "np.cumsum"):
+                return None
+            if isinstance(e.func, ast.Attribute) and e.func.attr in ("astype", "copy", "round", "reshape") and _is_method(e):
+                return filtered(e.func.value, at, seen)
+            for a in e.args:
+                m = filtered(a, at, seen)
+                if m is not None:
+                    return m
+        return None
+
+    def pos_taint(e: ast.AST, at: int, seen) -> Optional[str]:
+        """mask name if e holds positions inside a mask-filtered array"""
+        if isinstance(e, ast.Call):
+            cn = call_name(e)
+            if cn in POS_CALLS and e.args:
+                return filtered(e.args[0], at, set())
+            if isinstance(e.func, ast.Attribute) and e.func.attr in ("argsort", "argmin", "argmax") and _is_method(e):
+                return filtered(e.func.value, at, set())
+            if cn in SAME_POS_CALLS and e.args:
+                return pos_taint(e.args[0], at, seen)
+            if isinstance(e.func, ast.Attribute) and e.func.attr in ("tolist", "copy", "astype") and _is_method(e):
+                return pos_taint(e.func.value, at, seen)
+            return None
+        if isinstance(e, ast.Subscript):
+            # np.where(c)[0] / np.nonzero(c)[0] with c computed on a filtered array
+            if isinstance(e.value, ast.Call) and call_name(e.value) in ("np.where", "np.nonzero") and len(e.value.args) == 1:
+                m = filtered(e.value.args[0], at, set())
+                if m is not None:
+                    return m
+            # mapped back: np.flatnonzero(m)[t], np.where(m)[0][t]
+            base = e.value
+            if isinstance(base, ast.Name):
+                ds = du.reaching(base.id, at)
+                if len(ds) == 1 and ds[0].value is not None:
+                    base = ds[0].value
+            bt = norm1(base, 200).replace(" ", "")
+            if bt.startswith(("np.flatnonzero(", "np.where(", "np.nonzero(", "np.arange(")):
+                return None
+            return pos_taint(e.value, at, seen)
+        if isinstance(e, ast.Name):
+            for d in du.reaching(e.id, at):
+                if (e.id, d.node) in seen:
+                    continue
+                if d.kind == "unpack" and d.value is not None and isinstance(d.value, ast.Call) and call_name(d.value) == "np.unique" \
+                        and any(k.arg == "return_index" and getattr(k.value, "value", None) is True for k in d.value.keywords) and d.value.args:
+                    # (unique, index[, …]) — the index array is the second element
+                    if d.index == 1:
+                        m = filtered(d.value.args[0], d.node, set())
+                        if m is not None:
+                            return m
+                if d.kind in ("assign",) and d.value is not None:
+                    m = pos_taint(d.value, d.node, seen | {(e.id, d.node)})
+                    if m is not None:
+                        return m
+            return None
+        if isinstance(e, (ast.ListComp, ast.GeneratorExp)):
+            for g in e.generators:
+                m = pos_taint(g.iter, at, seen)
+                if m is not None:
+                    return m
+        return None
+
+    out: List[Tuple[ast.AST, str, str]] = []
+    for n, d in cfg.g.nodes(data=True):
+        st = d["stmt"]
+        if st is None:
+            continue
+        if isinstance(st, ast.Return) and st.value is not None:
+            vals = st.value.elts if isinstance(st.value, ast.Tuple) else [st.value]
+            for v in vals:
+                m = pos_taint(v, n, set())
+                if m is not None:
+                    out.append((st, m, f"`{norm1(v, 60)}` holds positions inside the array filtered by `{m}` and is returned as if they were positions in the unfiltered list"))
+        from .defuse import header_exprs
+        for h in header_exprs(st):
+            if h is None:
+                continue
+            for sub in walk_no_nested(h):
+                if isinstance(sub, ast.Subscript) and isinstance(sub.ctx, ast.Load) and not isinstance(sub.slice, (ast.Slice, ast.Constant)):
+                    sl = sub.slice.elts[0] if isinstance(sub.slice, ast.Tuple) and sub.slice.elts else sub.slice
+                    m = pos_taint(sl, n, set()) if isinstance(sl, (ast.Name, ast.Call, ast.Subscript)) else None
+                    if m is not None and filtered(sub.value, n, set()) != m:
+                        bt = norm1(sub.value, 60).replace(" ", "")
+                        if not bt.startswith(("np.flatnonzero(", "np.where(", "np.nonzero(")):
+                            base_def = None
+                            if isinstance(sub.value, ast.Name):
+                                ds = du.reaching(sub.value.id, n)
+                                base_def = norm1(ds[0].value, 60).replace(" ", "") if len(ds) == 1 and ds[0].value is not None else None
+                            if not (base_def or "").startswith(("np.flatnonzero(", "np.where(", "np.nonzero(")):
+                                out.append((sub, m, f"`{norm1(sub, 60)}` indexes an unfiltered array with positions computed inside the array filtered by `{m}`"))
+    return out
